@@ -1,21 +1,18 @@
-SPECIFICATION LSpec
+INIT LInit
+NEXT LNext
+INVARIANT LawsHold
 CONSTANTS
   NsChoices <- ExhNsChoices
   ClassChoices <- ExhClassChoices
   MemberChoices <- ExhMemberChoices
   LeafChoices <- ExhLeafChoices
-  Universe = "ns"
+  Universe = "inst"
   TypeDepth0 = 0
-  RichArgs = FALSE
-  MaxItems = 3
   MaxArgs = 0
+  MaxItems = 1
+  RichArgs = FALSE
   Target = 1
   MinDecls = 1
   MaxNsDepth = 1
   MaxMembers = 1
-  Trivia = {"", " ", "c", "cpp"}
-  Fuses <- NeverFuses
-PROPERTY LayoutIsStuttering
-INVARIANT InvRender
 CHECK_DEADLOCK FALSE
-CONSTRAINT SmallGaps
